@@ -30,6 +30,9 @@ type Cut struct {
 	N     int    `json:"n"` // chunk ordinal on that connection (1-based), for before-ack / after-ack
 	// Withhold: ordinals (1-based, per connection) of chunks received before the cut that are NOT acknowledged
 	Withhold []int `json:"withhold"`
+	// AfterMs (idle cuts): the link dies only that long after the writers started - unacknowledged chunks have then been waiting
+	// for their acks for a long time (seeded change C02/m3: a default ack timeout of 1 s silently dropped them from the storage)
+	AfterMs int `json:"after_ms,omitempty"`
 }
 
 type Case struct {
@@ -61,6 +64,8 @@ type history struct {
 	UpID      [16]byte
 	FiredCuts int
 	Resumed   int
+	SentAcks  []upk.SentResult // results the broker sent for the main stream's chunks
+	DeadInc   map[int]bool     // connections that died
 }
 
 func run(c Case) (*history, string, *ev.Failure) {
@@ -251,6 +256,7 @@ func run(c Case) (*history, string, *ev.Failure) {
 	defer stopNeighbour()
 	// idle cuts fire from the harness side while writers run
 	stopIdle := make(chan struct{})
+	idleT0 := time.Now()
 	var iwg sync.WaitGroup
 	iwg.Add(1)
 	go func() {
@@ -263,7 +269,7 @@ func run(c Case) (*history, string, *ev.Failure) {
 			}
 			mu.Lock()
 			cc := curCut()
-			idle := cc != nil && cc.Phase == "idle"
+			idle := cc != nil && cc.Phase == "idle" && time.Since(idleT0) >= time.Duration(cc.AfterMs)*time.Millisecond
 			if idle {
 				cutIdx++
 				fired++
@@ -408,6 +414,13 @@ func run(c Case) (*history, string, *ev.Failure) {
 	}
 	h.Before, _, _ = rec.Snapshot()
 	h.Ledger = withoutNeighbour(b.Ledger())
+	h.SentAcks = script.Results()
+	h.DeadInc = map[int]bool{}
+	for _, l := range w.Links() {
+		if l.Dead() {
+			h.DeadInc[l.Index] = true
+		}
+	}
 	h.Resumed = rec.ResumedCount()
 	mu.Lock()
 	h.FiredCuts = fired
@@ -656,6 +669,35 @@ func oracle(c Case, h *history, k *ev.Case) *ev.Failure {
 				map[bool]string{true: " - same points, payloads emptied", false: ""}[stripped])
 		}
 	}
+	// clause 6: "chunks not acknowledged before a disconnect are retransmitted after the stream is resumed": a chunk whose only
+	// receptions are on connections that died, and for which the broker never sent a result on any connection, must arrive again
+	// once the stream has resumed on a later connection that stayed up (the case ends with such a connection and a quiescence wait).
+	ackSent := map[uint32]bool{}
+	for _, r := range h.SentAcks {
+		ackSent[r.Seq] = true
+	}
+	lastResume := -1
+	for _, e := range h.Ledger {
+		if m, ok := e.Msg.(*message.UpstreamResumeResponse); ok && !e.In && m.ResultCode == message.ResultCodeSucceeded && !h.DeadInc[e.Inc] && e.Inc > lastResume {
+			lastResume = e.Inc
+		}
+	}
+	if lastResume >= 0 {
+		for seq, es := range bySeq {
+			if ackSent[seq] {
+				continue
+			}
+			onLive := false
+			for _, e := range es {
+				if !h.DeadInc[e.Inc] {
+					onLive = true
+				}
+			}
+			if !onLive {
+				return fail("C02.6 not-retransmitted", "chunk seq %d reached the broker only on connection(s) that died, the broker never acknowledged it, the stream resumed on connection %d - and the chunk was not sent again", seq, lastResume)
+			}
+		}
+	}
 	// clause 3: every accepted point is inside some announced chunk
 	for _, a := range h.Accepted {
 		for _, p := range a.Points {
@@ -781,6 +823,9 @@ func gen(t *rapid.T) Case {
 	}
 	c.Refuse = rapid.IntRange(0, 9).Draw(t, "refuse") == 0
 	c.Neighbour = rapid.SampledFrom([]string{"", "", "unreliable", "partial"}).Draw(t, "neighbour")
+	if rapid.IntRange(0, 24).Draw(t, "slowack") == 0 { // rare: each such case takes 1.3 s longer
+		c.Cuts = []Cut{{Phase: "idle", N: 1, Withhold: []int{1, 2, 3}, AfterMs: 1300}}
+	}
 	return c
 }
 
@@ -806,4 +851,7 @@ func TestRegress(t *testing.T) {
 		sub.One(t, Case{Codec: "json", Policy: upk.Policy{Kind: "size", Size: 1}, Writers: [][]upk.Op{ops, ops}, Ack: upk.AckPlan{Mode: "immediate", AliasMode: "first"},
 			Cuts: []Cut{{Phase: "before-ack", N: 1}}, Redial: "paced", Storage: "default"})
 	}
+	// seeded change C02/m3: chunks that wait longer than a second for their acks before the link dies
+	sub.One(t, Case{Codec: "proto", Policy: upk.Policy{Kind: "immediate"}, Writers: [][]upk.Op{ops[:4]}, Ack: upk.AckPlan{Mode: "immediate", AliasMode: "first"},
+		Cuts: []Cut{{Phase: "idle", N: 1, Withhold: []int{1, 2, 3}, AfterMs: 1300}}, Redial: "paced", Storage: "default"})
 }
